@@ -329,6 +329,16 @@ def templates(tier="quick"):
         T += _mk("restat_deps_%s_list_changes" % kind, [rv("v0", ["h1"]), rv("v1", ["h1", "h2"])], tags=["restat", "deps"], depth=d, touch=True,
                  js=(1, 2), max_fault_stmts=1, files={"h2": "h2-v0\n"}, edits_during=False)
 
+    # T35 `restat` supplied by a dyndep file that is re-made in the build: before the file is loaded the statement is
+    # judged as an ordinary one (output older than its input: dirty, wanted), afterwards as a restat statement (the log
+    # says its output was examined after that input: clean) -- while it is wanted, and perhaps running
+    ddr = dyndep_text([("e", [], [], True)])
+    e = Stmt("e", ex=["src"], oo=["dd"], dyndep="dd")
+    e.dyn_restat = True
+    v = Variant("v0", [Stmt("dd", ex=["dd.in"], copy=True), e, Stmt("g", ex=["g.in"]), Stmt("f", ex=["e", "g"])], defaults=["f"])
+    T += _mk("dyndep_supplies_restat", [v], tags=["dyndep", "restat"], depth=5, js=(2, 3), files={"dd.in": ddr}, touch=True,
+             with_faults=False, with_rm=False, edits_during=False, touch_only=("dd.in",))
+
     # T32 declared sources that are missing and have no rule: as explicit, implicit, order-only input and as a validation,
     # of statements with and without work to do (C05: reported before any command runs)
     v = Variant("v0", [Stmt("a", ex=["s"]), Stmt("b", ex=["a"], im=["isrc"]), Stmt("c", ex=["t"], oo=["osrc"]),
